@@ -39,7 +39,8 @@ type BGVCase struct {
 	Degree2     int         `json:"degree2"`     // > 0: a second polynomial evaluated afterwards with the SAME evaluator and the same
 	Coeffs2     [][]uint64  `json:"coeffs2"`     // input object (ciphertext, or the PowerBasis that now holds the powers of the first run)
 	Target2     uint64      `json:"target2"`
-	Owners2     []int       `json:"owners2"` // slot mapping of the second polynomial vector (differs from the first)
+	AdmitOnly   bool        `json:"admitOnly"` // scale-invariant mode below the noise floor: admission/level/scale only
+	Owners2     []int       `json:"owners2"`   // slot mapping of the second polynomial vector (differs from the first)
 }
 
 func (c BGVCase) RandSeed() uint64 { return c.Seed }
@@ -132,9 +133,14 @@ func genBGV(t *rapid.T) BGVCase {
 		if min > L {
 			min = L
 		}
-		if rapid.IntRange(0, 2).Draw(t, "levelMin") == 0 {
+		switch k := rapid.IntRange(0, 3).Draw(t, "levelMin"); {
+		case k == 0:
 			c.Level = min
-		} else {
+		case k == 1 && min > 0:
+			// any level from 0 up is admissible; below the noise floor only admission, level and scale are judged
+			c.Level = rapid.IntRange(0, min-1).Draw(t, "levelLow")
+			c.AdmitOnly = true
+		default:
 			c.Level = rapid.IntRange(min, L).Draw(t, "level")
 		}
 	case rapid.IntRange(0, 2).Draw(t, "levelMin") == 0:
@@ -187,7 +193,7 @@ func genBGV(t *rapid.T) BGVCase {
 	if c.Kind != "bignum" && !c.MixedParity {
 		c.Lazy = rapid.IntRange(0, 7).Draw(t, "lazy") == 0
 	}
-	if !c.Short && !c.MixedParity && rapid.IntRange(0, 2).Draw(t, "second") != 0 {
+	if !c.Short && !c.AdmitOnly && !c.MixedParity && rapid.IntRange(0, 2).Draw(t, "second") != 0 {
 		// second polynomial: any degree the remaining budget admits (scale-invariant mode: not deeper than the first one)
 		d2 := c.Level
 		if c.Invariant || d2 > depth+1 {
@@ -381,17 +387,32 @@ func runBGV(c BGVCase, rec *h.Rec) error {
 		rec.NonTrivial(fmt.Sprintf("short|%s|deg=%d|lvl=%d|pb=%v", c.Kind, c.Degree, c.Level, c.FromPB))
 		return nil
 	}
-	if err != nil && c.Invariant && c.Level < depth {
-		// No level is consumed in this mode, so no level is "too few"; lattigo's level guard nevertheless applies.
-		// The statement does not decide this input class: a refusal is accepted (and counted trivial), a result is checked.
-		rec.Class("bfv:level<depth:refused")
-		return nil
+	entry := "from-ciphertext"
+	if c.FromPB {
+		entry = "from-powerbasis"
+	}
+	if err != nil && c.Invariant {
+		// the scale-invariant mode consumes no level: every level >= 0 is admissible, at both entry points
+		return h.Failf("C13:bfv:admission:"+entry, "scale-invariant mode, degree %d (advertised depth %d) at level %d refused: %v", c.Degree, depth, c.Level, err)
 	}
 	if err != nil {
 		return h.Failf("C13:"+mode+":Evaluate:error", "degree %d at level %d (depth %d): %v", c.Degree, c.Level, depth, err)
 	}
 	if c.Invariant && c.Level < depth {
-		rec.Class("bfv:level<depth:evaluated")
+		rec.Class("bfv:level<depth:evaluated:" + entry)
+	}
+	rec.Classf("admitted:%s:%s:level-depth=%d", mode, entry, c.Level-depth)
+	if c.AdmitOnly {
+		// level below the noise floor of this mode: only admission, level and scale can be judged (the result is noise)
+		rec.Class("bfv:admission-only:" + entry)
+		if out.Level() != c.Level {
+			return h.Failf("C13:bfv:level", "degree %d: input level %d, output level %d (no level is consumed in this mode)", c.Degree, c.Level, out.Level())
+		}
+		if out.Scale.Cmp(target) != 0 {
+			return h.Failf("C13:bfv:scale", "output scale %v != target scale %v", out.Scale.Uint64(), target.Uint64())
+		}
+		rec.NonTrivial(fmt.Sprintf("bfv-admission|%s|%s|deg=%d|lvl=%d", entry, c.Kind, c.Degree, c.Level))
+		return nil
 	}
 
 	// depth / scale / value contract of one evaluation
